@@ -210,14 +210,26 @@ fn jres_auth(p: &[u8]) -> String {
 
 fn parse_cookie_resp(body: &[u8]) -> Option<Option<Vec<u8>>> {
     let (l, n) = get_varint(body)?;
-    let mut o = n + l as usize;
+    if l < 0 { return None; }
+    let mut o = n.checked_add(l as usize)?;
     let has = *body.get(o)?;
     o += 1;
     if has != 1 { return Some(None); }
     let (pl, n2) = get_varint(body.get(o..)?)?;
     o += n2;
     if pl < 0 { return None; }
-    Some(Some(body.get(o..o + pl as usize)?.to_vec()))
+    Some(Some(body.get(o..o.checked_add(pl as usize)?)?.to_vec()))
+}
+/// (key, payload) of a Store Cookie body, defensively
+fn parse_store_cookie(body: &[u8]) -> Option<(Vec<u8>, Vec<u8>)> {
+    let (kl, n) = get_varint(body)?;
+    if kl < 0 { return None; }
+    let key = body.get(n..n.checked_add(kl as usize)?)?.to_vec();
+    let rest = body.get(n + kl as usize..)?;
+    let (pl, n2) = get_varint(rest)?;
+    if pl < 0 { return None; }
+    let payload = rest.get(n2..n2.checked_add(pl as usize)?)?.to_vec();
+    Some((key, payload))
 }
 
 fn print_case(sc: &Scenario, rec: &RunRecord, pubkey: &[u8]) {
@@ -240,18 +252,13 @@ fn print_case(sc: &Scenario, rec: &RunRecord, pubkey: &[u8]) {
     for (_, id, body) in rec.sent.iter() {
         if !in_cfg { if *id == 2 && rec.shared_secret.is_some() { in_cfg = true; } continue; }
         if *id == 0x0A {
-            if let Some((kl, n)) = get_varint(body) {
-                let key = &body[n..n + kl as usize];
-                let rest = &body[n + kl as usize..];
-                if let Some((pl, n2)) = get_varint(rest) {
-                    let payload = &rest[n2..(n2 + pl as usize).min(rest.len())];
-                    if key == b"passage:authentication" && payload.len() >= 32 {
-                        if let Ok(c) = serde_json::from_slice::<AuthCookie>(&payload[32..]) { sauth.push(format!("({}, {})", g_auth_cookie(&c), g_hex(&payload[32..]))); }
-                    } else if key == b"passage:session" {
-                        if let Ok(c) = serde_json::from_slice::<SessionCookie>(payload) {
-                            uuid = c.id.as_u128().to_be_bytes().to_vec();
-                            ssess.push(format!("({}, {})", g_session_cookie(&c), g_hex(payload)));
-                        }
+            if let Some((key, payload)) = parse_store_cookie(body) {
+                if key == b"passage:authentication" && payload.len() >= 32 {
+                    if let Ok(c) = serde_json::from_slice::<AuthCookie>(&payload[32..]) { sauth.push(format!("({}, {})", g_auth_cookie(&c), g_hex(&payload[32..]))); }
+                } else if key == b"passage:session" {
+                    if let Ok(c) = serde_json::from_slice::<SessionCookie>(&payload) {
+                        uuid = c.id.as_u128().to_be_bytes().to_vec();
+                        ssess.push(format!("({}, {})", g_session_cookie(&c), g_hex(&payload)));
                     }
                 }
             }
@@ -270,6 +277,9 @@ fn print_case(sc: &Scenario, rec: &RunRecord, pubkey: &[u8]) {
     if !rec.framed { flags |= 1; }
     if rec.out_garbled { flags |= 2; }
     let biggest_in = rec.raw_in.iter().map(|x| x.1.len()).max().unwrap_or(0);
+    let mut segs: Vec<String> = rec.raw_in.iter().map(|(t, b)| format!("({}, Some {})", t, g_hex(b))).collect();
+    if let Some(t) = rec.eof_at { segs.push(format!("({}, None)", t)); }
+    let segs = g_list(&segs);
     // global order of the observable events: 0 = next send, 1 = next call
     let mut ord: Vec<(u64, u8)> = rec.sent_seq.iter().map(|s| (*s, 0u8)).chain(rec.call_seq.iter().map(|s| (*s, 1u8))).collect();
     ord.sort();
@@ -278,10 +288,10 @@ fn print_case(sc: &Scenario, rec: &RunRecord, pubkey: &[u8]) {
         "{{| cc_cfg := {}; cc_rsa := {}; cc_psess := {}; cc_pauth := {}; cc_sauth := {}; cc_ssess := {}; \
          cc_status := {}; cc_auth := {}; cc_discover := {}; cc_filter := {}; cc_select := {}; cc_loc := {}; \
          cc_token := {}; cc_uuid := {}; cc_kaids := {}; cc_now := {}; cc_inbox := {}; cc_sent := {}; cc_calls := {}; \
-         cc_outcome := {}; cc_end := {}; cc_flags := {}; cc_maxalloc := {}; cc_biggest_in := {}; cc_order := {}; cc_note := \"{}\"%string |}}",
+         cc_outcome := {}; cc_end := {}; cc_flags := {}; cc_maxalloc := {}; cc_biggest_in := {}; cc_order := {}; cc_note := \"{}\"%string; cc_segs := {}; cc_eof := {} |}}",
         cfg, rsa, g_list(&psess), g_list(&pauth), g_list(&sauth), g_list(&ssess),
         res("status"), res("auth"), res("discover"), res("filter"), res("select"), loc,
-        g_hex(&rec.token), g_hex(&uuid), kaids, sc.clock, inbox, sent, calls, rec.outcome, rec.end_ms, flags, rec.max_alloc, biggest_in, order, sc.note.replace('"', "'").replace('\\', "/")));
+        g_hex(&rec.token), g_hex(&uuid), kaids, sc.clock, inbox, sent, calls, rec.outcome, rec.end_ms, flags, rec.max_alloc, biggest_in, order, sc.note.replace('"', "'").replace('\\', "/"), segs, rec.eof_at.map(|t| t as i64).unwrap_or(-1)));
 }
 
 /// payload of the StoreCookie (configuration phase, id 0x0A) with this key, if the server sent one
@@ -290,11 +300,8 @@ fn stored_cookie(rec: &RunRecord, key: &[u8]) -> Option<Vec<u8>> {
     for (_, id, body) in rec.sent.iter() {
         if !in_cfg { if *id == 2 && rec.shared_secret.is_some() { in_cfg = true; } continue; }
         if *id == 0x0A {
-            let (kl, n) = get_varint(body)?;
-            let k = &body[n..n + kl as usize];
-            let rest = &body[n + kl as usize..];
-            let (pl, n2) = get_varint(rest)?;
-            if k == key { return Some(rest[n2..(n2 + pl as usize).min(rest.len())].to_vec()); }
+            let (k, payload) = parse_store_cookie(body)?;
+            if k == key { return Some(payload); }
         }
     }
     None
@@ -306,7 +313,8 @@ fn login_success_identity(rec: &RunRecord) -> Option<(u128, Vec<u8>)> {
         if *id == 2 && body.len() >= 17 {
             let u = u128::from_be_bytes(body[..16].try_into().ok()?);
             let (l, n) = get_varint(&body[16..])?;
-            return Some((u, body[16 + n..16 + n + l as usize].to_vec()));
+            if l < 0 { return None; }
+            return Some((u, body.get(16 + n..(16 + n).checked_add(l as usize)?)?.to_vec()));
         }
     }
     None
@@ -554,6 +562,116 @@ fn main() {
                         g_opt(stored.as_ref().map(|s| g_hex(s))), g_bool(secret.is_some()), g_bool(delta <= expiry as i64), g_bool(same_ip), g_ident(&ident1), g_ident(&ident2),
                         match flag2 { Some(b) => format!("(Some {})", g_bool(b)), None => "None".into() }, g_bool(auth_called2),
                         g_bool(rec1.outcome == "OOk")));
+                }
+            }
+            "MAL" => {
+                // C04: well-formed transcripts with one frame mutated, at every protocol state
+                let hostile: Vec<Vec<u8>> = vec![vec![0xff, 0xff, 0xff, 0xff, 0x0f], vec![0x80, 0x80, 0x80, 0x80, 0x08], vec![0xff, 0xff, 0xff, 0xff, 0x07],
+                    vec![0x00], vec![0xff, 0xff, 0xff, 0xff, 0xff], vec![0x80, 0x80, 0x80, 0x80, 0x80, 0x01], vec![0x91, 0x4e], vec![0x90, 0x4e]];
+                for intent in [Intent::Status, Intent::Login, Intent::Transfer] {
+                    let p0 = base_params(&mut r, intent);
+                    let probe = build2("MAL", &mut r, &p0, Some(vec![3u8; 16]), "probe".into());
+                    let frame_pos: Vec<usize> = probe.acts.iter().enumerate().filter(|(_, a)| matches!(a, Act::Frame { .. })).map(|(i, _)| i).collect();
+                    for (k, pos) in frame_pos.iter().enumerate() {
+                        for m in 0..14 {
+                            if scale < 3 && r.below(2) == 0 { continue; }
+                            let mut p = base_params(&mut r, intent);
+                            if intent == Intent::Transfer { let c = rnd_sa(&mut r); p.auth_payload = Some(valid_auth_cookie(&mut r, &c, &[3u8; 16], 5, 21_600, false)); }
+                            let mut sc = build2("MAL", &mut r, &p, Some(vec![3u8; 16]), format!("{:?} step {} mutation {}", intent, k, m));
+                            let Act::Frame { id, body } = sc.acts[*pos].clone() else { continue };
+                            let good = frame_bytes(id, &body);
+                            let inner_len = good.len() - 1;   // all these frames are < 128 bytes except the encryption response
+                            let mut repl: Vec<Act> = vec![];
+                            match m {
+                                0..=7 => { // hostile outer length, then (after a pause) the body: the refusal must not wait for it
+                                    let mut v = hostile[m].clone(); repl.push(Act::Raw(v.clone())); repl.push(Act::Sleep(5_001)); v = good[1.min(good.len())..].to_vec(); if !v.is_empty() { repl.push(Act::Raw(v)); } }
+                                8 => { // declared length one too small / the rest glued to the next frame
+                                    let mut v = vec![]; put_varint(&mut v, inner_len as i32 - 1); v.extend_from_slice(&good[good.len() - inner_len..]); repl.push(Act::Raw(v)); }
+                                9 => { let mut v = vec![]; put_varint(&mut v, inner_len as i32 + 1); v.extend_from_slice(&good[good.len() - inner_len..]); repl.push(Act::Raw(v)); }
+                                10 => { // truncated frame then end of stream
+                                    let cut = r.below(good.len() as u64) as usize; repl.push(Act::Raw(good[..cut].to_vec())); repl.push(Act::Sleep(7)); repl.push(Act::Eof); }
+                                11 => { // hostile inner length prefix (first field)
+                                    let mut b2 = r.pick(&hostile).clone(); b2.extend_from_slice(&body); repl.push(Act::Frame { id, body: b2 }); }
+                                12 => { // invalid UTF-8 / bad ordinal / random body
+                                    let mut b2 = body.clone(); if !b2.is_empty() { let i = r.below(b2.len() as u64) as usize; b2[i] = *r.pick(&[0xc0u8, 0xff, 0x80, 0xed, 0x7f]); } else { b2 = r.bytes(5); } repl.push(Act::Frame { id, body: b2 }); }
+                                _ => { let n = r.below(40) as usize; repl.push(Act::Raw(r.bytes(n))); }
+                            }
+                            sc.acts.splice(*pos..*pos + 1, repl);
+                            if m == 4 || m == 13 { sc.max_len = *r.pick(&[64, 300, 10_000]); }
+                            run(sc, &mut r);
+                        }
+                    }
+                }
+                // RSA blobs of odd sizes in the encryption response
+                for n in [0usize, 127, 128, 129, 4096] {
+                    let mut p = base_params(&mut r, Intent::Login);
+                    p.enc = (TokenMode::Echo, SecretMode::Good16, KeyMode::Garbage(n));
+                    let sc = build2("MAL", &mut r, &p, None, format!("rsa blob {}", n));
+                    run(sc, &mut r);
+                }
+                // a frame just at / over the configured maximum, and mutations after encryption started
+                for (maxl, over) in [(64i32, 0usize), (64, 1), (300, 0), (300, 1)] {
+                    let p = base_params(&mut r, Intent::Login);
+                    let mut sc = build2("MAL", &mut r, &p, None, format!("max {} over {}", maxl, over));
+                    sc.max_len = maxl;
+                    // plugin message (id 2) of exactly max / max+1 bytes in the configuration phase instead of client information
+                    if let Some(pos) = sc.acts.iter().rposition(|a| matches!(a, Act::Frame { id: 0, .. })) {
+                        sc.acts[pos] = Act::Frame { id: 2, body: vec![0u8; maxl as usize - 1 + over] };
+                    }
+                    run(sc, &mut r);
+                }
+                for m in 0..6 {
+                    let p = base_params(&mut r, Intent::Login);
+                    let mut sc = build2("MAL", &mut r, &p, None, format!("post-encryption mutation {}", m));
+                    if let Some(pos) = sc.acts.iter().rposition(|a| matches!(a, Act::Frame { id: 0, .. })) {
+                        sc.acts[pos] = match m { 0 => Act::Raw(vec![0xff, 0xff, 0xff, 0xff, 0x0f]), 1 => Act::Raw(vec![0x00]), 2 => Act::Frame { id: 6, body: vec![0u8; 16].into_iter().chain([9u8]).collect() },
+                            3 => Act::Frame { id: 0, body: vec![0xff, 0xff, 0xff, 0xff, 0x07, b'a'] }, 4 => Act::Frame { id: 0, body: vec![2, 0xc0, 0x80] }, _ => Act::Raw(r.bytes(30)) };
+                    }
+                    run(sc, &mut r);
+                }
+            }
+            "SEG" => {
+                // C08: the same scenario unsegmented and with every frame cut into pieces
+                for i in 0..(14 * scale) {
+                    let intent = *r.pick(&[Intent::Status, Intent::Login, Intent::Transfer]);
+                    let p = base_params(&mut r, intent);
+                    let mut ads = base_ads(&mut r);
+                    if let Ok(d) = &mut ads.discover.0 { if d.is_empty() { d.push(rnd_target(&mut r, 0)); } }
+                    let secret = Some(r.bytes(16));
+                    let client = rnd_sa(&mut r);
+                    let seed_a = r.next();
+                    let base = build("SEG", &mut Rng(seed_a), &p, ads.clone(), secret.clone(), client, format!("seg {} whole", i));
+                    let rec0 = run_scenario(&base, &mut Rng(seed_a ^ 1));
+                    print_case(&base, &rec0, &pubkey);
+                    let mode = i % 5;
+                    let mut sc = build("SEG", &mut Rng(seed_a), &p, ads.clone(), secret.clone(), client, format!("seg {} mode {}", i, mode));
+                    let mut acts = vec![];
+                    for a in sc.acts.iter() {
+                        match a {
+                            Act::Frame { id, body } => {
+                                let f = frame_bytes(*id, body);
+                                let cuts: Vec<usize> = match mode {
+                                    0 => (1..f.len()).collect(),                                   // one byte at a time
+                                    1 => vec![1],                                                    // after the length prefix
+                                    2 => vec![f.len() - 1],                                          // last byte late
+                                    3 => { let c = 1 + r.below((f.len() - 1).max(1) as u64) as usize; vec![c.min(f.len() - 1).max(1)] }
+                                    _ => { let mut v: Vec<usize> = (0..3).map(|_| 1 + r.below((f.len() - 1).max(1) as u64) as usize).filter(|c| *c < f.len()).collect(); v.sort(); v.dedup(); v }
+                                };
+                                let mut prev = 0;
+                                for c in cuts.iter().filter(|c| **c > 0 && **c < f.len()) { acts.push(Act::Raw(f[prev..*c].to_vec())); acts.push(Act::Sleep(3)); prev = *c; }
+                                acts.push(Act::Raw(f[prev..].to_vec()));
+                            }
+                            other => acts.push(other.clone()),
+                        }
+                    }
+                    sc.acts = acts;
+                    if i % 3 == 1 { sc.write_script = (0..40).map(|k| if k % 3 == 0 { WriteResp::Accept(1) } else { WriteResp::Accept(7) }).collect(); }
+                    let rec1 = run_scenario(&sc, &mut Rng(seed_a ^ 1));
+                    print_case(&sc, &rec1, &pubkey);
+                    let ids = |rec: &RunRecord| g_list(&rec.sent.iter().map(|x| format!("{}", g_z(x.1))).collect::<Vec<_>>());
+                    let kinds = |rec: &RunRecord| g_list(&rec.calls.iter().map(|c| format!("{}", match &c.1[..6] { "(CStat" => 1, "(CAuth" => 2, "CDisco" => 3, "(CFilt" => 4, "(CSele" => 5, _ => 6 })).collect::<Vec<_>>());
+                    emit_case("SEGP", &format!("{{| sp_ids0 := {}; sp_ids1 := {}; sp_calls0 := {}; sp_calls1 := {}; sp_out0 := {}; sp_out1 := {}; sp_garbled := {} |}}",
+                        ids(&rec0), ids(&rec1), kinds(&rec0), kinds(&rec1), rec0.outcome, rec1.outcome, g_bool(rec1.out_garbled || rec0.out_garbled)));
                 }
             }
             "C07" => {
